@@ -25,6 +25,7 @@ func checkC11(c CaseStatic) error {
 	if c.Feed == nil {
 		return vt.Failf("malformed case")
 	}
+	runStaticPrimers(c.Feed.Tables(), c.Primers, false)
 	s, err := parseStatic(c.Feed.Tables(), c.Pres, false)
 	if err != nil {
 		if sgen.HasZeroByteMember(c.Feed.Tables(), c.Pres) {
@@ -141,6 +142,7 @@ func propC11(t *rapid.T) {
 	}
 	c := CaseStatic{Feed: f, Pres: p}
 	c.Env = genEnv(t)
+	c.Primers = genStaticPrimers(t)
 	classes, nt := c11Classify(f)
 	c11Rec.Eval(classes...)
 	if info.MovedDates > 0 {
